@@ -156,4 +156,49 @@ var propSpecs = []propSpec{
 		outside: "as C11; header lists with empty elements are not required to be granted",
 		stubs:   append(append([]string{}, stdStubs...), "strings.TrimSpace, strings.EqualFold (from its own SSA, ASCII path); strconv.Itoa digit-wise model"),
 	},
+	{
+		id: "C13",
+		runs: []runSpec{
+			{dir: "mux", entry: "ZZC13", quick: []int{44, 134, 234}, thorough: []int{45, 145, 245}},
+		},
+		covers:  []string{"router-accepts", "group-served", "group-404"},
+		bounds:  "3 groups of 3 routers whose matchers are built from path-version, Hosts (literal and parameterised domains), header-version, And, Or (nested) and nil; optional Remove of each router; a duplicate-name New; request: Host = every ASCII string of <= 3-4 bytes, path = every string of <= 4 bytes, Accept from a table of 6 headers; reference: independent matchers evaluated on the original request (first accepting router, rewritten path, matcher parameters), then that router alone on the rewritten request",
+		boundsT: "Host <= 4, path <= 5 bytes",
+		outside: "other matcher combinations; arbitrary Accept headers; Host bytes >= 0x80; histories of Use after New",
+		stubs:   append(append([]string{}, stdStubs...), "strings.ToLower (ASCII), mime.ParseMediaType on concrete headers: the real function"),
+	},
+	{
+		id: "C14",
+		runs: []runSpec{
+			{dir: "mux", entry: "ZZC14", quick: []int{105, 205, 1105, 1205}, thorough: []int{306, 1306}},
+		},
+		covers:  []string{"host-history", "host-accepted", "host-rejected", "host-params"},
+		bounds:  "2 operation alphabets of 8 operations (Add/Delete of literal and parameterised domains in mixed case, Delete of an unknown domain, a 6-literal bundle plus a wildcard domain, RegisterInterceptor + interceptor domain), every history of <= 2 operations; Host = every ASCII string of <= 5 bytes (case, ':port', brackets, invalid ports all included); reference: own normaliser + the C02 reference resolver over the lower-cased live domain set, parameters compared",
+		boundsT: "histories of <= 3 operations, Host <= 6 bytes",
+		outside: "Host bytes >= 0x80 (Unicode case folding); longer hosts; the empty host and \"*\"",
+		stubs:   append(append([]string{}, stdStubs...), "strings.ToLower: exact for ASCII"),
+	},
+	{
+		id: "C15",
+		runs: []runSpec{
+			{dir: "mux", entry: "ZZC15Path", quick: []int{36}, thorough: []int{38}},
+			{dir: "mux", entry: "ZZC15Hdr", quick: []int{3}, thorough: []int{3}},
+		},
+		covers:  []string{"version-accepted", "version-rejected", "header-accepted", "header-rejected"},
+		bounds:  "path version: 1-2 version strings of 1-3 arbitrary bytes each (leading/trailing '/', v1/v11 overlaps, '/' inside), with and without a parameter name, path = every string of <= 6 bytes, a pre-existing context parameter; header version: with/without parameter name and custom key, Accept = 7 table entries (absent, garbage, quoted value, other parameters, duplicate parameter) or 'a/b; <key>=' followed by every token string of <= 3 bytes over [a-z0-9._-]",
+		boundsT: "paths <= 8 bytes",
+		outside: "arbitrary Accept bytes (mime.ParseMediaType is the real function on concrete headers and an exact model for a symbolic token-valued last parameter only)",
+		stubs:   append(append([]string{}, stdStubs...), "mime.ParseMediaType: real function on concrete input; for '<concrete>; key=<symbolic token bytes>' the parameter value is the symbolic tail (validated natively on every run)"),
+	},
+	{
+		id: "C16",
+		runs: []runSpec{
+			{dir: "mux", entry: "ZZC16", quick: []int{21, 121, 221, 321, 421}, thorough: []int{12, 112, 212, 312, 412, 30, 230}},
+		},
+		covers:  []string{"normal-request", "panic-contained", "panic-passes-through"},
+		bounds:  "Router and Group (router created by Group.New) with WithRecovery, without it, and Router with WithStatusRecovery; every sequence of 2 requests, each of 7 kinds (route handler behind Use and route middlewares, HEAD, OPTIONS, 405, 404, TRACE, group not-found), panicking or not, with a symbolic panic value (any int64 or any string of <= 2 bytes) and a symbolic parameter value of <= 1 byte",
+		boundsT: "1 request with values <= 2 bytes, 3 requests with empty values",
+		outside: "panics raised by the RecoverFunc itself or by matchers; routers added to a group with Group.Add; the other bundled recovery options (they differ only in logging, which is stubbed)",
+		stubs:   append(append([]string{}, stdStubs...), "net/http.Error: its documented effect on the writer; logging and stack dumps: empty bodies"),
+	},
 }
